@@ -7,7 +7,8 @@
           the client wrote them, server -> client in the order the server wrote them), checked
           against the property over traces: every Reply answers exactly one earlier Call of that
           connection with the result of that call's own payload, no Call is answered twice, nothing
-          answers a Post. *)
+          answers a Post.  The runs include calls whose arguments and results have several hundred
+          KiB; payloads are written run-length compressed (zpay) and expanded here. *)
 From QV Require Import Auth Call Facts.
 From Coq Require Import String.
 Local Open Scope N_scope.
@@ -68,16 +69,23 @@ Definition rcase_ok (c : rcase) : bool :=
 End WithCfg.
 
 (* ---- traces of one connection ---- *)
-Record tcase := { tc_c2s : list (list N * string); tc_s2c : list (list N * string) }.
+(* payloads in traces are run-length compressed by the harness (calls with arguments and results of
+   several hundred KiB are part of the runs): a list of segments (hex text, byte, count) standing
+   for the bytes of the hex text followed by `count` copies of `byte` *)
+Definition zpay := list (string * N * N).
+Definition unz (z : zpay) : bytes :=
+  flat_map (fun sg => unhex (fst (fst sg)) ++ repeat (byte_of_N (snd (fst sg))) (N.to_nat (snd sg))) z.
+
+Record tcase := { tc_c2s : list (list N * zpay); tc_s2c : list (list N * zpay) }.
 
 Definition hkey (h : list N) : list N := skipn 1 h.
 Definition htype (h : list N) : N := nth 0 h 0.
 
 (* how many frames with this key and a type among `tys` *)
-Definition count_key (tys : list N) (k : list N) (l : list (list N * string)) : nat :=
+Definition count_key (tys : list N) (k : list N) (l : list (list N * zpay)) : nat :=
   List.length (filter (fun e => eqb_listN (hkey (fst e)) k && existsb (N.eqb (htype (fst e))) tys) l).
 
-Definition find_call (k : list N) (l : list (list N * string)) : option string :=
+Definition find_call (k : list N) (l : list (list N * zpay)) : option zpay :=
   match filter (fun e => eqb_listN (hkey (fst e)) k && (htype (fst e) =? T_Call)) l with
   | e :: _ => Some (snd e)
   | [] => None
@@ -88,7 +96,7 @@ Definition resp_types : list N := [T_Reply; T_Error; T_Cancelled].
 (* every answer frame: its key is the key of exactly one Call frame of this connection (ids
    are not reused inside the run), it is the only answer to it (see below), and a Reply carries the result of
    that call's own payload; no answer carries the key of a Post *)
-Definition answer_ok (cf : cfg) (t : tcase) (e : list N * string) : bool :=
+Definition answer_ok (cf : cfg) (t : tcase) (e : list N * zpay) : bool :=
   let k := hkey (fst e) in
   if existsb (N.eqb (htype (fst e))) resp_types then
     Nat.eqb (count_key [T_Call] k (tc_c2s t)) 1 &&
@@ -99,8 +107,8 @@ Definition answer_ok (cf : cfg) (t : tcase) (e : list N * string) : bool :=
     Nat.eqb (count_key [T_Post] k (tc_c2s t)) 0 &&
     (if htype (fst e) =? T_Reply then
        match find_call k (tc_c2s t) with
-       | Some p => eqb_bytes (unhex (snd e))
-                     (fres (nth 1 (fst e) 0) (nth 2 (fst e) 0) (nth 3 (fst e) 0) (unhex p))
+       | Some p => eqb_bytes (unz (snd e))
+                     (fres (nth 1 (fst e) 0) (nth 2 (fst e) 0) (nth 3 (fst e) 0) (unz p))
        | None => false
        end
      else true)
